@@ -3,8 +3,14 @@ use crate::{
     base::{BaseSlot, BlockError, EntryContext, StatSlot},
     logging,
 };
+#[cfg(not(sentinel_verif))]
 use lazy_static::lazy_static;
+#[cfg(sentinel_verif)]
+use sentinel_verif_rt::lazy_static;
+#[cfg(not(sentinel_verif))]
 use std::sync::{atomic::Ordering, Arc};
+#[cfg(sentinel_verif)]
+use sentinel_verif_rt::sync::{atomic::Ordering, Arc};
 
 const STAT_SLOT_ORDER: u32 = 4000;
 
